@@ -139,7 +139,8 @@ HSDIRS = ['$' + hashlib.sha1(b'hsdir%d' % i).hexdigest().upper() + nick
 SECOND_DIRS = ['$' + hashlib.sha1(b'second-hsdir%d' % i).hexdigest().upper() + nick for i, nick in enumerate(['~golf', '~hotel'])]
 
 CLIENT_BLOBS = ['QUJDREVGR0hJSktMTU5PUA', 'YWJjZGVmZ2hpamtsbW5vcA', 'MDEyMzQ1Njc4OWFiY2RlZg']     # 16 bytes, base64 unpadded
-TOR_CLIENT_BLOBS = ['dG9yZ2VuZXJhdGVkMDAwMA', 'dG9yZ2VuZXJhdGVkMDAwMQ', 'dG9yZ2VuZXJhdGVkMDAwMg', 'dG9yZ2VuZXJhdGVkMDAwMw']
+# (tokens Tor generates; base64 may well end in the letters O and K)
+TOR_CLIENT_BLOBS = ['dG9yZ2VuZXJhdGVkMDAwMA', 'dG9yZ2VuZXJhdGVkMDAwOK', 'dG9yZ2VuZXJhdGVkMDAwMg', 'dG9yZ2VuZXJhdGVkMDAwMO']
 CLIENT_NAMES = ['alice', 'bob', 'carol_2', 'd-e+f']
 
 _tmp_re = re.compile(r'tortmp[A-Za-z0-9_]+')
@@ -1564,6 +1565,12 @@ class C14Run(OnionRun):
         sim, ch = self.sim, self.ch
         n_services = 1 + (1 if ch.chance(1, 3, 'two') else 0)
         cfgs = [self.draw_service(i) for i in range(n_services)]
+        self.shared_auth = None
+        if len(cfgs) == 2 and cfgs[0]['api'] == 'auth' and cfgs[1]['api'] == 'auth' and ch.chance(1, 2, 'sameauth'):
+            # one AuthBasic object describes the clients of both services (the request, not per-service state)
+            cfgs[1]['clients'] = cfgs[0]['clients']
+            self.shared_auth = 'wanted'
+            sim.probe('auth-object-reused-for-second-service')
         sim.cells = set(self.cell(c) for c in cfgs)
         tor = self.build_tor()
         tor.non_anonymous = cfgs[0]['single_hop'] if ch.chance(7, 8, 'anonmode') else not cfgs[0]['single_hop']
@@ -1678,8 +1685,11 @@ class C14Run(OnionRun):
                                                version=c['version'], single_hop=c['single_hop'])
         elif c['api'] == 'auth':
             clients = [(n, b) if b else n for n, b in c['clients']]
+            if self.shared_auth == 'wanted':
+                self.shared_auth = O.AuthBasic(clients)
+            auth = self.shared_auth if self.shared_auth is not None else O.AuthBasic(clients)
             d = O.EphemeralAuthenticatedOnionService.create(sim.reactor, self.config, ports, detach=c['detach'], private_key=key,
-                                                            version=c['version'], auth=O.AuthBasic(clients),
+                                                            version=c['version'], auth=auth,
                                                             single_hop=c['single_hop'])
         else:
             d = self.tor_obj.create_onion_service(ports, private_key=key, version=c['version'], single_hop=c['single_hop'],
